@@ -18,7 +18,7 @@ RULE = ("stream pubd (C10 mix): seeded request sequences against the real Reposi
 def check(ctx):
     # order of the two persisted store calls of remove_publisher, regenerated from pubd/manager.rs
     # body of CurrentObjects::verify_delta_applies (three loops) regenerated from pubd/rrdp.rs; C10Src: = the model's verifyDelta
-    vlib.translate(ctx, [("event_tasks", "EventTasks.lean"), ("pure_fns:C10", "PureFns.lean")])
+    vlib.translate(ctx, [("event_tasks", "EventTasks.lean"), ("pure_fns:C10", "PureFnsC10.lean")])
     vlib.prove(ctx, ["KrillModel.Props.C10", "KrillModel.Props.C10Removal", "KrillModel.Props.C10Src"])
     found = False
     if vlib.build_harness(ctx, ["pubd"]):
